@@ -110,8 +110,11 @@ def check_state_to_graph(case, sub="state_to_graph"):
     import graphiq.backends.state_rep_conversion as rc
 
     n = case["n"]
-    S, D, v = gs.present(case)
+    dense = n <= 8
+    S, D, v = gs.present(case, dense=dense)
     cl = gs.classes(S, n)
+    if not dense:
+        cl.append("n>8")
     xs = [p[0] for p in S]
     icls = "x_full_rank" if rp.gf2_rank(xs) == n else "x_rank_deficient"
     cl.append(icls)
@@ -120,12 +123,21 @@ def check_state_to_graph(case, sub="state_to_graph"):
     a = adj_of(graph, n)
     if a.shape != (n, n) or not np.array_equal(a, a.T) or np.any(np.diag(a)):
         raise Violation(sub, "not-a-graph", "state_to_graph", icls, "returned adjacency is not a simple graph")
-    w = v
     for g in gates:
         if g[0] not in GATE:
             raise Violation(sub, "unknown-gate", "state_to_graph", icls, repr(g))
-        w = sv.apply1(w, n, int(g[1]), sv.GATES[GATE[g[0]]])
-    if not sv.same_state(w, rg.graph_state(n, rg.mask_from_adj(a))):
+    if dense:
+        w = v
+        for g in gates:
+            w = sv.apply1(w, n, int(g[1]), sv.GATES[GATE[g[0]]])
+        ok = sv.same_state(w, rg.graph_state(n, rg.mask_from_adj(a)))
+    else:
+        ps = rp.PauliSim(n)
+        ps.stab = list(S)
+        for g in gates:
+            ps.gate1(GATE[g[0]], int(g[1]))
+        ok = rp.group_key(ps.stab, n) == rp.group_key(rg.graph_stabilizers(n, rg.mask_from_adj(a)), n)
+    if not ok:
         raise Violation(sub, "gates-wrong", "state_to_graph", icls,
                         "gates %s do not map the state onto the returned graph's state" % (gates,))
     if rp.group_key(rp.stabilizer_paulis(tab), n) != rp.group_key(S, n):
@@ -217,7 +229,8 @@ def strat_graphs(tier):
 
 
 def strat_s2g(tier):
-    base = st.one_of(gs.st_state(1, 6 if tier == "quick" else 8, max_word=25, max_rowops=10), gs.st_sparse_state(3, 8))
+    base = st.one_of(gs.st_state(1, 6 if tier == "quick" else 8, max_word=25, max_rowops=10), gs.st_sparse_state(3, 8),
+                     gs.st_state(9, 16, max_word=60, max_rowops=12))
     return st.tuples(base, st.booleans()).map(lambda t: dict(t[0], clifford=t[1]))
 
 
